@@ -44,7 +44,9 @@ def do_fail(run, op):
         if kind == "add":
             g.add_line(op[2])
         elif kind == "add_instance":
-            g.add_line(gfapy.Line(op[2], version=op[3], vlevel=run.vlevel))
+            inst = gfapy.Line(op[2], version=op[3], vlevel=(0 if op[-1].endswith("_v0") else run.vlevel))
+            run.last_instance = inst
+            g.add_line(inst)
         elif kind == "add_connected":
             other = gfapy.Gfa(version=run.version)
             other.add_line(op[2])
@@ -100,6 +102,21 @@ def prop(case):
         after = full_obs(run.gfa)
         atext = str(run.gfa)
         n_fail += 1
+        inst = getattr(run, "last_instance", None)
+        if op[1] == "add_instance" and inst is not None:
+            run.last_instance = None
+            # the refused line object is not part of the Gfa and the caller may go on using it
+            if inst.is_connected() or inst.gfa is not None:
+                raise Violation("refused-instance-connected", "step %d: the refused Line instance of %r reports to be connected to the Gfa" % (step, op), op[-1])
+            try:
+                if inst.get("name") is not None and not gfapy.is_placeholder(inst.get("name")):
+                    inst.name = "zq_free_name"
+                inst.set("zz", 1)
+            except Exception:
+                pass
+            if full_obs(run.gfa) != before or str(run.gfa) != btext:
+                raise Violation("refused-instance-aliased", "step %d: editing the refused Line instance of %r changed the Gfa:\n%s" % (
+                    step, op, O.obs_diff(before, full_obs(run.gfa))), op[-1])
         if after != before or atext != btext:
             raise Violation("state-changed", "step %d: the failing call %r raised %s (%s) but the Gfa changed:\n%s\n-- before --\n%s\n-- after --\n%s" % (
                 step, op, type(e).__name__, str(e)[:150].replace("\n", " | "), O.obs_diff(before, after), btext, atext),
@@ -165,6 +182,8 @@ def build_fail(st, r):
         else:
             text = gen.choice(r, ["S\t%s\t10\t*" % nm, "E\t%s\t%s+\t%s-\t0\t1\t0\t1\t*\txx:i:1\tab:Z:q" % (nm, fa, fb),
                                   "G\t%s\t%s+\t%s-\t5\t*" % (nm, fa, fb)])
+        if gen.chance(r, 0.4):
+            return ["fail", "add_instance", text, version, "duplicate_id_instance"]
         return ["fail", "add", text, "duplicate_id"]
     if k == 1 and version == "gfa2" and real_named:
         groups = [x for x in real_named if x.rt in "OU" and len(x.tags) >= 1]
@@ -194,8 +213,15 @@ def build_fail(st, r):
         return ["fail", "add", "%s\t%s\t%s\txx:i:1\tab:Z:q" % (kind, nm, items), "group_named_like_other"]
     if k == 2 and version == "gfa1":
         links = [x for x in m.recs if x.rt == "L"]
-        if links:
+        if links and gen.chance(r, 0.6):
+            if gen.chance(r, 0.4):
+                return ["fail", "add_instance", gen.choice(r, links).text(), version, "same_link_again_instance"]
             return ["fail", "add", gen.choice(r, links).text(), "same_link_again"]
+        segs_ = m.segment_names()
+        if len(segs_) >= 1:
+            # a path whose overlap count does not match, as an instance built without validation
+            a_, b_ = gen.choice(r, segs_), gen.choice(r, segs_ + [fa])
+            return ["fail", "add_instance", "P\tpzz\t%s+,%s-,%s+\t1M" % (a_, b_, fb), version, "path_overlap_count_v0"]
         return None
     if k == 3:
         other = "gfa2" if version == "gfa1" else "gfa1"
